@@ -17,20 +17,28 @@ Kinds == << "load-result",         \* loadConfig succeeded/failed differently fr
             "serving-mismatch",    \* C09/C10: keys that authenticate differ from Serving(last good configuration)
             "listening-mismatch",  \* C10: addresses that listen differ from those of the last good configuration
             "leftover-runner",     \* C10: something of a failed/stopped configuration keeps running
-            "harness-problem" >>   \* the harness could not measure (never a verdict)
+            "harness-problem",     \* the harness could not measure (never a verdict)
+            \* C11 (hand-over), judged against every configuration that was live at some time during the client operation
+            "refused-on-retained",   \* connection refused on an address present in all of them
+            "common-key-rejected",   \* a key present (same id) in all of them did not authenticate
+            "wrong-attribution",     \* authenticated under an id none of them configures for that listener and key
+            "handled-not-once",      \* an accepted connection was reported opened/closed other than exactly once
+            "datagram-lost",         \* a datagram to a retained address was not processed
+            "connection-unhandled",  \* an accepted connection on a retained address was never handled
+            "relay-interrupted" >>   \* a connection relaying before the reload did not run to completion
 NK == Len(Kinds)
 
-VARIABLES l, good, vio, nscen, nprobe
-tvars == <<l, good, vio, nscen, nprobe>>
+VARIABLES l, good, vio, nscen, nprobe, cfgAt
+tvars == <<l, good, vio, nscen, nprobe, cfgAt>>
 
 ToSet(s) == {s[i] : i \in 1..Len(s)}
 E == Trace[l]
 Is(e) == l <= Len(Trace) /\ E.ev = e /\ l' = l + 1
 Flag(kinds) == vio' = [k \in 1..NK |-> IF vio[k] = 0 /\ Kinds[k] \in kinds THEN l ELSE vio[k]]
 
-TInit == Init /\ l = 1 /\ good = NoCfg /\ vio = [k \in 1..NK |-> 0] /\ nscen = 0 /\ nprobe = 0
+TInit == Init /\ l = 1 /\ good = NoCfg /\ vio = [k \in 1..NK |-> 0] /\ nscen = 0 /\ nprobe = 0 /\ cfgAt = <<>>
 
-TrScenario == Is("Scenario") /\ good' = NoCfg /\ nscen' = nscen + 1 /\ UNCHANGED <<vio, nprobe>>
+TrScenario == Is("Scenario") /\ good' = NoCfg /\ nscen' = nscen + 1 /\ cfgAt' = <<>> /\ UNCHANGED <<vio, nprobe>>
 
 \* the harness holds the foreign sockets only during the load, and only addresses the server does not hold
 TrLoad == /\ Is("Load")
@@ -40,7 +48,7 @@ TrLoad == /\ Is("Load")
                           ELSE Run(c, 1, {}, ToSet(E.frn)).ok IN
              /\ Flag(IF E.ok # expOk THEN {"load-result"} ELSE {})
              /\ good' = IF c.kind = "stop" THEN NoCfg ELSE IF expOk THEN c ELSE good
-          /\ UNCHANGED <<nscen, nprobe>>
+          /\ UNCHANGED <<nscen, nprobe, cfgAt>>
 
 TrProbe == /\ Is("Probe")
            /\ Flag((IF ToSet(E.serving) # Serving(good) THEN {"serving-mismatch"} ELSE {})
@@ -48,18 +56,50 @@ TrProbe == /\ Is("Probe")
                    \cup (IF E.runners # (IF good = NoCfg THEN 0 ELSE 1) THEN {"leftover-runner"} ELSE {})
                    \cup (IF Len(E.problems) > 0 THEN {"harness-problem"} ELSE {}))
            /\ nprobe' = nprobe + 1
-           /\ UNCHANGED <<good, nscen>>
+           /\ UNCHANGED <<good, nscen, cfgAt>>
 
-TrOther == /\ l <= Len(Trace) /\ E.ev \in {"Handshake", "Done", "Window", "Client"} /\ l' = l + 1
-           /\ UNCHANGED <<good, vio, nscen, nprobe>>
+TrOther == /\ l <= Len(Trace) /\ E.ev \in {"Handshake", "Done", "Window", "NoSink"} /\ l' = l + 1
+           /\ UNCHANGED <<good, vio, nscen, nprobe, cfgAt>>
+
+(* ---- C11: hand-over ---- *)
+TrLoadStart == /\ Is("LoadStart")
+               /\ cfgAt' = Append(cfgAt, E.cfg)
+               /\ UNCHANGED <<good, vio, nscen, nprobe>>
+TrLoadEnd == /\ Is("LoadEnd")
+             /\ Flag(IF E.ok THEN {} ELSE {"load-result"})
+             /\ UNCHANGED <<good, nscen, nprobe, cfgAt>>
+CfgAtIdx(i) == IF i = 0 THEN NoCfg ELSE cfgAt[i]
+\* configurations live at some time during an operation that began after e0 loads had ended and finished when s1 had started
+LiveDuring(e0, s1) == {CfgAtIdx(i) : i \in e0..s1}
+TrClient ==
+  /\ Is("Client")
+  /\ LET L == LiveDuring(E.e0, E.s1)
+         retained == \A c \in L : <<E.proto, E.a>> \in ListeningOf(c)
+         idsOf(c) == {x[4] : x \in {y \in Serving(c) : y[1] = E.proto /\ y[2] = E.a /\ y[3] = E.cs}}
+         common == IF \A c \in L : idsOf(c) # {} THEN {1} ELSE {}     \* cipher+secret configured on that listener in all of them
+         any == UNION {idsOf(c) : c \in L} IN
+     Flag((IF E.res = "refused" /\ retained THEN {"refused-on-retained"} ELSE {})
+          \cup (IF E.res = "noauth" /\ common # {} THEN {"common-key-rejected"} ELSE {})
+          \cup (IF E.res = "auth" /\ E.id \notin any THEN {"wrong-attribution"} ELSE {})
+          \cup (IF E.res \in {"auth", "noauth"} /\ (E.opened # 1 \/ E.closed # 1) THEN {"handled-not-once"} ELSE {})
+          \cup (IF E.res = "unprocessed" /\ retained THEN {"datagram-lost"} ELSE {})
+          \cup (IF E.res = "unhandled" /\ retained THEN {"connection-unhandled"} ELSE {})
+          \cup (IF E.res = "error" THEN {"harness-problem"} ELSE {}))
+  /\ nprobe' = nprobe + 1
+  /\ UNCHANGED <<good, nscen, cfgAt>>
+TrRelay == /\ Is("Relay")
+           /\ Flag(IF E.ok THEN {} ELSE IF E.setup THEN {"harness-problem"} ELSE {"relay-interrupted"})
+           /\ nprobe' = nprobe + 1
+           /\ UNCHANGED <<good, nscen, cfgAt>>
 \* the harness could not bind an address that should be free: the server still holds it (the scenario's ports are
 \* private to the scenario and outside the ephemeral range)
 TrForeignFailed == /\ Is("ForeignFailed")
                    /\ Flag(IF <<E.l[1], E.l[2]>> \notin ListeningOf(good) THEN {"listening-mismatch"} ELSE {"harness-problem"})
-                   /\ UNCHANGED <<good, nscen, nprobe>>
-TrProblem == /\ Is("HarnessProblem") /\ Flag({"harness-problem"}) /\ UNCHANGED <<good, nscen, nprobe>>
+                   /\ UNCHANGED <<good, nscen, nprobe, cfgAt>>
+TrProblem == /\ Is("HarnessProblem") /\ Flag({"harness-problem"}) /\ UNCHANGED <<good, nscen, nprobe, cfgAt>>
 
-TNext == (TrScenario \/ TrLoad \/ TrProbe \/ TrOther \/ TrProblem \/ TrForeignFailed) /\ UNCHANGED vars
+TNext == (TrScenario \/ TrLoad \/ TrProbe \/ TrOther \/ TrProblem \/ TrForeignFailed
+          \/ TrLoadStart \/ TrLoadEnd \/ TrClient \/ TrRelay) /\ UNCHANGED vars
 TSpec == TInit /\ [][TNext]_<<tvars, vars>>
 
 Report == (l = Len(Trace) + 1) => PrintT(<<"RESULT", l - 1, nscen, nprobe, vio>>)
